@@ -16,7 +16,7 @@ pub enum Tok {
 }
 
 const TRUTHY: &[&str] = &[
-    "true", "1", "yes", "x", "TRUE", "abc", "00", "0.0", " false", "false ", "nope", "off", "null", "fa1se", "ｆalse", "é", "-1", "n", "f", "none", "0 ", " ", "knot", "ok", "on", "and2",
+    "true", "1", "yes", "x", "TRUE", "abc", "00", "0.0", " false", "false ", " 0", " no", "no ", " false ", "nope", "off", "null", "fa1se", "ｆalse", "é", "-1", "n", "f", "none", "0 ", " ", "knot", "ok", "on", "and2",
     "a b", "#", "\"\"", "0x0", "-0", "+0", "00", "faLsE!", "NO.", "ноль", "い",
 ];
 const FALSY: &[&str] = &["", "0", "false", "no", "FALSE", "False", "fAlSe", "NO", "No", "nO", "falsE"];
@@ -506,25 +506,57 @@ fn case_truthiness(t: &mut Tape, st: &mut Stats) -> Verdict {
     if undefined {
         st.class("absent-value");
     }
-    let script = if undefined {
-        "r = not ${v}\nif ${v}\n    emit T\nelse\n    emit F\nend\n".to_string()
+    // absent: an undefined variable, or a function in command position that ends without a value (bare return, or
+    // running into its end) right after a command with a truthy output
+    let absent_by_function = undefined && t.flip();
+    // composed consumers (`if not ..`, `while not ..`) hand the value to `not` through the rebuilt line: only for
+    // values outside the classes that C09 lists as altered on that way
+    let composed = !undefined && crate::props::c09::known_class(&v, true, true).is_none();
+    let mut script = String::new();
+    let subject = if absent_by_function {
+        st.class("absent-value-from-a-function-without-return-value");
+        script.push_str(if t.flip() { "fn nov\n    inner = set yes\n    return\nend\n" } else { "fn nov\n    inner = set yes\nend\n" });
+        "nov"
     } else {
-        "v = put 0\nr = not ${v}\nif ${v}\n    emit T\nelse\n    emit F\nend\n".to_string()
+        if !undefined {
+            script.push_str("v = put 0\n");
+        }
+        "${v}"
     };
+    script.push_str(&format!("r = not {}\nif {}\n    emit T\nelse\n    emit F\nend\n", subject, subject));
+    if absent_by_function {
+        script.push_str("if false\n    emit wrong\nelseif nov\n    emit ET\nelse\n    emit EF\nend\nwhile nov\n    emit WT\n    goto :wo\nend\n:wo emit WD\n");
+    }
+    if composed {
+        st.class("value-through-if-not-and-while-not");
+        script.push_str("if not ${v}\n    emit NT\nelse\n    emit NF\nend\nwhile not ${v}\n    emit WNT\n    goto :o\nend\n:o emit D\n");
+    }
     hz_reset();
     with_hz(|h| h.side = vec![v.clone()]);
     let out = run_text(&script, c, 5_000, None);
     let ctx = match out.result {
         Ok(c) => c,
-        Err(e) => return fail("C06/truthiness/run-error", json!({"value": v, "error": format!("{:?}", e)})),
+        Err(e) => return fail("C06/truthiness/run-error", json!({"value": v, "script": script, "error": format!("{:?}", e)})),
     };
-    let trace: Vec<String> = with_hz(|h| h.trace.iter().map(|e| e.args.join(" ")).collect());
+    let trace: Vec<String> = with_hz(|h| h.trace.iter().filter(|e| e.cmd == "emit").map(|e| e.args.join(" ")).collect());
     let r = ctx.variables.get("r").cloned();
     let want_not = if expected { "false" } else { "true" };
-    if r.as_deref() != Some(want_not) || trace != vec![if expected { "T" } else { "F" }.to_string()] {
+    let mut want_trace = vec![if expected { "T" } else { "F" }.to_string()];
+    if absent_by_function {
+        want_trace.extend(["EF", "WD"].iter().map(|s| s.to_string()));
+    }
+    if composed {
+        if expected {
+            want_trace.extend(["NF", "D"].iter().map(|s| s.to_string()));
+        } else {
+            want_trace.extend(["NT", "WNT", "D"].iter().map(|s| s.to_string()));
+        }
+    }
+    if r.as_deref() != Some(want_not) || trace != want_trace {
+        let composed_only = r.as_deref() == Some(want_not) && trace.first() == want_trace.first() && !absent_by_function;
         return fail(
-            &format!("C06/truthiness/{}", if expected { "truthy-read-as-falsy" } else { "falsy-read-as-truthy" }),
-            json!({"value": v, "undefined": undefined, "expected_truthy": expected, "not_output": r, "if_branch": trace}),
+            &format!("C06/truthiness/{}{}", if expected { "truthy-read-as-falsy" } else { "falsy-read-as-truthy" }, if composed_only { "/composed-with-not" } else if absent_by_function { "/absent-from-function" } else { "" }),
+            json!({"value": v, "undefined": undefined, "script": script, "expected_truthy": expected, "not_output": r, "expected_branches": want_trace, "branches": trace}),
         );
     }
     Verdict::Pass(Some(fp(&(v, undefined))))
@@ -533,7 +565,7 @@ fn case_truthiness(t: &mut Tape, st: &mut Stats) -> Verdict {
 pub fn property() -> Property {
     Property {
         id: "C06",
-        rule: "(grammar) EXHAUSTIVE enumeration of every well-formed token sequence of E := A ((and|or) A)*, A := T | F | ( E? ) up to 11 tokens (quick) / 15 tokens (thorough), each T/F spelled with a truthy/falsy value from a pool and passed through a variable, run through all four consumers (not, if, elseif, while) and compared with a 40-line and-of-ors reference evaluator; (random) longer sequences up to 60 tokens, nesting <= 6; (re-evaluated) two conditions A, B of up to ~10 tokens whose atoms are variables re-assigned before each of 2..5 visits of the same `not A` / `if A .. elseif B [else] end` / `while B` lines inside a while or for-in loop: every visit must decide by the values current at that visit; (truthiness) every falsy spelling with case variants, near-misses and arbitrary strings through not/if against the ASCII-case-insensitive table. Non-trivial: sequence with a group or both connectives; distinct by (token sequence, atom values)",
+        rule: "(grammar) EXHAUSTIVE enumeration of every well-formed token sequence of E := A ((and|or) A)*, A := T | F | ( E? ) up to 11 tokens (quick) / 15 tokens (thorough), each T/F spelled with a truthy/falsy value from a pool and passed through a variable, run through all four consumers (not, if, elseif, while) and compared with a 40-line and-of-ors reference evaluator; (random) longer sequences up to 60 tokens, nesting <= 6; (re-evaluated) two conditions A, B of up to ~10 tokens whose atoms are variables re-assigned before each of 2..5 visits of the same `not A` / `if A .. elseif B [else] end` / `while B` lines inside a while or for-in loop: every visit must decide by the values current at that visit; (truthiness) every falsy spelling with case variants, near-misses (incl. falsy words padded with blanks) and arbitrary strings through not / if - and, for values outside the C09 classes, through `if not` and `while not` - against the ASCII-case-insensitive table; 'absent' is an undefined variable or a function in command position that ends without a value after a command with a truthy output (through not, if, elseif, while). Non-trivial: sequence with a group or both connectives; distinct by (token sequence, atom values)",
         assumptions: &[
             "atom values are never the keywords and/or/(/) and never a registered command name (documented dispatch rule for the first token)",
             "only well-formed statements are generated",
@@ -582,7 +614,7 @@ pub fn property() -> Property {
                     Tier::Thorough => Plan::Random { cases: 1_200_000, max_len: 60 },
                 },
                 case: case_truthiness,
-                min_classes: &[("absent-value", 50), ("falsy-value", 1000), ("truthy-value", 1000)],
+                min_classes: &[("absent-value", 50), ("falsy-value", 1000), ("truthy-value", 1000), ("absent-value-from-a-function-without-return-value", 20), ("value-through-if-not-and-while-not", 5000)],
             },
         ],
         probes: vec![],
